@@ -66,7 +66,13 @@ func c07do(c *Ctx, st *c07state, op Op, rng *rand.Rand, ev Ev, name string, v in
 	}
 	ev["full"] = full
 	if full == 1 {
-		ev["slice"] = ints(q.Slice())
+		sl := q.Slice()
+		ev["slice"] = ints(append([]int(nil), sl...))
+		// the caller owns the returned slice: overwriting it must not reach the queue
+		// (everything observed below comes after this)
+		for i := range sl {
+			sl[i] = -777
+		}
 	}
 	stop := 0
 	if has(op, "stop") {
@@ -167,6 +173,47 @@ func runC07(c *Ctx) {
 			for j := rng.Intn(200); j > 0; j-- {
 				do([]string{"pop", "poplast"}[rng.Intn(2)])
 			}
+		}
+	}
+	for i := 0; i < c.Pick(3, 24); i++ {
+		rng := c.Rng("c07-huge", i)
+		h := c.NewHist("huge")
+		st := &c07state{}
+		h.Emit(c07exec(c, st, Op{"op": "new", "v": []int{-2, 4096, 5000, 8192}[i%4]}, rng))
+		next := 1
+		do := func(name string, full int) {
+			op := Op{"op": name, "full": full, "offs": []int{0, -1, 1, 2047, -2048}}
+			if name == "add" || name == "push" {
+				op["v"] = next
+				next++
+			}
+			h.Emit(c07exec(c, st, op, rng))
+		}
+		target := 4096 + rng.Intn(1200)
+		for st.q.Len() < target {
+			do("add", 0)
+		}
+		_, _, size := queueState(st.q)
+		if size < 0 {
+			size = st.q.Len()
+		}
+		// move the head into the upper half (or anywhere), staying nearly full
+		shift := size/2 + rng.Intn(size/2)
+		if i%3 == 2 {
+			shift = rng.Intn(size)
+		}
+		for j := 0; j < shift; j++ {
+			do("pop", 0)
+			do("add", 0)
+		}
+		for st.q.Len() < size {
+			do("add", 0)
+		}
+		do([]string{"push", "add"}[i%2], 1) // regrow of a full, wrapped buffer
+		do("push", 0)
+		do("add", 1)
+		for j := 0; j < 40; j++ {
+			do([]string{"pop", "poplast"}[rng.Intn(2)], b2i(j == 39))
 		}
 	}
 	nh := c.Pick(200, 6000)
